@@ -28,5 +28,6 @@ print(json.dumps({
         {"name": "inp_eq_is_structural", "obligation": "C09.inp_eq.structural"},
         {"name": "array_start_per_shell", "obligation": "C04.array_start.per_shell"},
         {"name": "inp_every_item_reports_its_level", "obligation": "C06.inp.every_item_has_its_level"},
+        {"name": "inp_from_input_keeps_labels", "obligation": "C02.from_input.labels_carried_over"},
     ],
 }))
